@@ -504,3 +504,121 @@ def pmSharedMappingIndex : Nat := {shared_idx}'''
 
 
 TARGETS['T19l'] = {'file': 'pm/sop.py', 'build': build_T19l}
+
+
+# ------------------------------------------------------------------ T19t / T19q: expressions behind hand-written model parts
+def build_T19t(tree):
+    """`ParametricMap.__init__`: (a) the ranks taken with a flat / a nested mapping sequence and the axes whose length the number of
+    mapping lists / plane positions is compared with (hand-written `Model/PMap.admission`); (b) the Dimension Index Value of a
+    plane: 1-based position of the FIRST row of the sorted distinct values (`np.unique(.., axis=0)`) that equals the plane's value
+    as a whole (`.all(axis=1)`) (hand-written `rankIn` / `dimensionIndex`)."""
+    import re
+    init = find_func(tree, 'ParametricMap.__init__')
+    src = [s for s in ast.walk(init) if isinstance(s, ast.If)]
+    flat = [s for s in src if re.fullmatch(r'pixel_array\.ndim in \((\d+(, \d+)*,?)\)', ast.unparse(s.test))
+            and 'real_world_value_mappings' in ast.unparse(s)]
+    if len(flat) != 1:
+        raise Unsupported('rank test for a flat mapping sequence (`pixel_array.ndim in (..)`) not found')
+    flat = flat[0]
+    flat_ranks = [int(v) for v in re.findall(r'\d+', ast.unparse(flat.test).split(' in ')[1])]
+    if len(flat.orelse) != 1 or not isinstance(flat.orelse[0], ast.If):
+        raise Unsupported('rank test: elif for the nested mapping sequence not found')
+    nested = flat.orelse[0]
+    m = re.fullmatch(r'pixel_array\.ndim == (\d+)', ast.unparse(nested.test))
+    if not m or len(nested.orelse) != 1 or not isinstance(nested.orelse[0], ast.Raise):
+        raise Unsupported('rank test: `elif pixel_array.ndim == K: .. else: raise` changed')
+    nested_rank = int(m.group(1))
+    # count checks
+    cm = [s for s in src if re.fullmatch(r'len\(real_world_value_mappings\) != pixel_array\.shape\[(\d)\]', ast.unparse(s.test))]
+    cp = [s for s in src if re.fullmatch(r'len\(plane_positions\) != pixel_array\.shape\[(\d)\]', ast.unparse(s.test))]
+    if len(cm) != 1 or len(cp) != 1 or not all(isinstance(s.body[0], ast.Raise) for s in cm + cp):
+        raise Unsupported('count checks of mapping lists / plane positions changed')
+    map_axis = int(ast.unparse(cm[0].test)[-2])
+    pos_axis = int(ast.unparse(cp[0].test)[-2])
+    # dimension index
+    dpv = [s for s in ast.walk(init) if isinstance(s, ast.Assign) and ast.unparse(s.targets[0]) == 'dimension_position_values']
+    want_dpv = '[np.unique(plane_position_values[:, index], axis=0) for index in range(plane_position_values.shape[1])]'
+    if len(dpv) != 1 or ast.unparse(dpv[0].value) != want_dpv:
+        raise Unsupported('dimension_position_values is no longer the sorted distinct values per indexed attribute')
+    div = [s for s in ast.walk(init) if isinstance(s, ast.Assign) and ast.unparse(s.targets[0]) == 'frame_content_item.DimensionIndexValues']
+    if len(div) != 1 or not isinstance(div[0].value, ast.ListComp):
+        raise Unsupported('DimensionIndexValues is no longer a list comprehension')
+    lc = div[0].value
+    gen = lc.generators[0]
+    if len(lc.generators) != 1 or ast.unparse(gen.target) not in ('idx, pos', '(idx, pos)') or not re.fullmatch(r'enumerate\(plane_position_values\[\w+\]\)', ast.unparse(gen.iter)) or gen.ifs:
+        raise Unsupported('DimensionIndexValues: generator changed')
+    elt = ast.unparse(lc.elt)
+    m = re.fullmatch(r'int\(np\.where\(\(dimension_position_values\[idx\]\.reshape\(len\(dimension_position_values\[idx\]\), -1\) == '
+                     r'np\.ravel\(pos\)\)\.all\(axis=1\)\)\[0\]\[(\d+)\]( \+ (\d+))?\)', elt)
+    if not m:
+        raise Unsupported('DimensionIndexValues: element expression changed: ' + elt[:200])
+    nth, base = int(m.group(1)), int(m.group(3) or 0)
+    text = f'''/-- `if pixel_array.ndim in (..)`: ranks taken with a FLAT sequence of mappings -/
+def pmFlatRanks : List Nat := [{', '.join(map(str, flat_ranks))}]
+
+/-- `elif pixel_array.ndim == K`: the rank taken with a NESTED sequence of mappings (anything else raises) -/
+def pmNestedRank : Nat := {nested_rank}
+
+/-- `len(real_world_value_mappings) != pixel_array.shape[K]` (after normalisation to 4-D) -/
+def pmMappingCountAxis : Nat := {map_axis}
+
+/-- `len(plane_positions) != pixel_array.shape[K]` -/
+def pmPositionCountAxis : Nat := {pos_axis}
+
+/-- Dimension Index Value: `np.where(<row of the sorted distinct values equals the plane's value as a whole>)[0][N] + B` -- which match -/
+def pmDimIndexMatch : Nat := {nth}
+
+/-- ... and the base `B` added to its 0-based position -/
+def pmDimIndexBase : Nat := {base}'''
+    return text, span_sha([flat, cm[0], cp[0], dpv[0], div[0]])
+
+
+TARGETS['T19t'] = {'file': 'pm/sop.py', 'build': build_T19t}
+
+
+def build_T19q(tree):
+    """`pixels._select_real_world_value_map`: order of the selector kinds, the subscript used for an integer selector, the attribute
+    compared for a string selector, first match (`list.index`) for strings and codes (hand-written `Model/PMap.select`)."""
+    import re
+    fn = find_func(tree, '_select_real_world_value_map')
+    body = strip_doc(fn.body)
+    if len(body) != 1 or not isinstance(body[0], ast.If):
+        raise Unsupported('_select_real_world_value_map is no longer one if / elif chain')
+    chain, node = [], body[0]
+    while True:
+        chain.append(node)
+        if len(node.orelse) == 1 and isinstance(node.orelse[0], ast.If):
+            node = node.orelse[0]
+        else:
+            if node.orelse:
+                raise Unsupported('_select_real_world_value_map: trailing else')
+            break
+    tests = [ast.unparse(c.test) for c in chain]
+    if tests != ['isinstance(selector, int)', 'isinstance(selector, str)', 'isinstance(selector, (CodedConcept, Code))']:
+        raise Unsupported('_select_real_world_value_map: selector kinds changed: ' + str(tests))
+    b0 = [ast.unparse(s) for s in chain[0].body]
+    m = re.fullmatch(r'try:\n    item = sequence\[selector( ([+-]) (\d+))?\]\nexcept IndexError:\n    return None', b0[0]) if len(b0) == 2 else None
+    if not m or b0[1] != 'return item':
+        raise Unsupported('_select_real_world_value_map: integer branch changed: ' + str(b0)[:200])
+    off = int(m.group(3) or 0) * (-1 if m.group(2) == '-' else 1)
+    b1 = [ast.unparse(s) for s in chain[1].body]
+    m1 = re.fullmatch(r'labels = \[item\.(\w+) for item in sequence\]', b1[0]) if len(b1) == 3 else None
+    if not m1 or b1[1] != 'try:\n    index = labels.index(selector)\nexcept ValueError:\n    return None' or b1[2] != 'return sequence[index]':
+        raise Unsupported('_select_real_world_value_map: string branch changed: ' + str(b1)[:200])
+    b2 = [ast.unparse(s) for s in chain[2].body]
+    if len(b2) != 3 or b2[0] != 'units = [CodedConcept.from_dataset(item.MeasurementUnitsCodeSequence[0]) for item in sequence]' \
+            or b2[1] != 'try:\n    index = units.index(selector)\nexcept ValueError:\n    return None' or b2[2] != 'return sequence[index]':
+        raise Unsupported('_select_real_world_value_map: code branch changed: ' + str(b2)[:200])
+    sign = '+' if off >= 0 else '-'
+    text = f'''/-- `_select_real_world_value_map`, integer selector: the subscript of `sequence[..]` (Python indexing, `IndexError` -> `None`) -/
+def rwvmSelectSubscript (selector : Int) : Int := selector {sign} {abs(off)}
+
+/-- string selector: the attribute of the items that is compared; the FIRST item that matches is returned (`list.index`) -/
+def rwvmSelectStringAttribute : String := "{m1.group(1)}"
+
+/-- order in which the kinds of selector are tested -/
+def rwvmSelectKinds : List String := ["int", "str", "code"]'''
+    return text, span_sha(body)
+
+
+TARGETS['T19q'] = {'file': 'pixels.py', 'build': build_T19q}
